@@ -83,10 +83,14 @@ def Ext.body : Ext → Bytes
 
 def Ext.encode (x : Ext) : Bytes := e16 x.type ++ vec16 x.body
 
+/-- the optional `Extension extensions<0..2^16-1>` block -/
+def extBlock : Option (List Ext) → Bytes
+  | none => []
+  | some es => vec16 (es.flatMap Ext.encode)
+
 def ClientHello.body (ch : ClientHello) : Bytes :=
   e16 ch.legacyVersion ++ ch.random ++ vec8 ch.sessionId ++ vec16 (ch.ciphers.flatMap e16)
-    ++ vec8 ch.compression
-    ++ (match ch.extensions with | none => [] | some es => vec16 (es.flatMap Ext.encode))
+    ++ vec8 ch.compression ++ extBlock ch.extensions
 
 /-- handshake message (type 1 = client_hello) inside one handshake record (type 22). -/
 def ClientHello.handshake (ch : ClientHello) : Bytes := e8 1 ++ vec24 ch.body
@@ -239,6 +243,15 @@ def alpnField (ch : ClientHello) : Option Bytes :=
   | some (p :: _) => some p
   | _ => none
 
+/-- What the statement demands to be reported; `none` where the specification is undefined. -/
+def specReport (sha : Bytes → Bytes) (ch : ClientHello) : Option Report :=
+  match ja4 sha ch, versionField ch with
+  | some j, some v =>
+    some { ja4 := j.ja4, ja4r := j.ja4r, ja4o := j.ja4o, ja4ro := j.ja4ro, version := v,
+           sni := sniField ch, alpn := alpnField ch, ciphers := cipherList ch, extensions := extList ch,
+           sigAlgs := sigAlgsOf ch.exts, groups := groupsOf ch.exts }
+  | _, _ => none
+
 /-! ### well-formedness (what "RFC-conformant" means here) -/
 
 def fits (n : Nat) (l : List Nat) : Prop := ∀ x ∈ l, x < n
@@ -253,6 +266,7 @@ def Ext.WF (bodyOk : Nat → Bytes → Bool) : Ext → Prop
       ∧ (match names with | [] => False | n :: _ => validUtf8 n.2 = true)
   | .alpn ps => ps ≠ [] ∧ (∀ p ∈ ps, p.length < 256) ∧ (ps.flatMap vec8).length < 65534
   | .supportedVersions vs => vs ≠ [] ∧ fits 65536 vs ∧ vs.length < 128
+      ∧ bodyOk 43 (vec8 (vs.flatMap e16)) = true
   | .signatureAlgorithms xs => fits 65536 xs ∧ xs.length < 32767
   | .supportedGroups xs => fits 65536 xs ∧ xs.length < 32767
   | .ecPointFormats f => f.length < 256
